@@ -167,6 +167,13 @@ def run(prog: Program, L: Ledger) -> None:
     if len(rets) != 1 or rets[0] is not body[-1] or not isinstance(rets[0].value, ast.Name):
         raise AnalysisError("search_molecules: a single trailing `return <label array>` expected")
     res = rets[0].value.id
+    # `ret = labels; return ret` (an inlined helper's return slot): the label array is the local it was bound from
+    for _hop in range(4):
+        binds_ = [n for n in walk_no_nested(sm.node) if isinstance(n, ast.Assign) and len(n.targets) == 1 and isinstance(n.targets[0], ast.Name) and n.targets[0].id == res]
+        if len(binds_) == 1 and isinstance(binds_[0].value, ast.Name):
+            res = binds_[0].value.id
+        else:
+            break
     # the component loop: the one loop that stores into the result
     stores = [n for n in walk_no_nested(sm.node) if isinstance(n, ast.Assign) and any(isinstance(t, ast.Subscript) and norm(t.value) == res for t in n.targets)]
     if len(stores) != 1:
@@ -179,6 +186,8 @@ def run(prog: Program, L: Ledger) -> None:
     loop = loops[0]
     pre = body[: body.index(loop)]
     post = body[body.index(loop) + 1 : -1]
+    # (a plain `ret = labels` binding of the return slot is not a modification)
+    post = [s for s in post if not (isinstance(s, ast.Assign) and len(s.targets) == 1 and isinstance(s.targets[0], ast.Name) and isinstance(s.value, ast.Name) and s.value.id == res)]
     if any(res in {n.id for n in ast.walk(s) if isinstance(n, ast.Name)} for s in post):
         raise AnalysisError(f"search_molecules: `{res}` is modified after the component loop (unrecognised idiom)")
 
@@ -239,6 +248,19 @@ def run(prog: Program, L: Ledger) -> None:
         cases = [None] + list(range(0, N + 1)) + [(lo, hi) for lo in range(0, N + 1) for hi in range(lo, N + 2)]
         for rs in cases:
             env = {"required_size": rs, "len(atoms)": N, "atoms.get_global_number_of_atoms()": N, "default_array": None}
+            # square / per-atom arrays allocated from the atom count have that length (an extracted helper may take the
+            # number of nodes from `len(connectivity)`)
+            for st_ in walk_no_nested(sm.node):
+                if isinstance(st_, ast.Assign) and len(st_.targets) == 1 and isinstance(st_.targets[0], ast.Name) and isinstance(st_.value, ast.Call) \
+                        and norm(st_.value.func) in ("np.full", "np.zeros", "np.ones", "np.empty") and st_.value.args:
+                    shp = st_.value.args[0]
+                    first = shp.elts[0] if isinstance(shp, ast.Tuple) and shp.elts else shp
+                    if norm(first) in env and isinstance(env[norm(first)], int):
+                        env[f"len({st_.targets[0].id})"] = env[norm(first)]
+                        env[f"{st_.targets[0].id}.shape[0]"] = env[norm(first)]
+                elif isinstance(st_, ast.Assign) and len(st_.targets) == 1 and isinstance(st_.targets[0], ast.Name) and isinstance(st_.value, ast.Name) and f"len({st_.value.id})" in env:
+                    env[f"len({st_.targets[0].id})"] = env[f"len({st_.value.id})"]
+                    env[f"{st_.targets[0].id}.shape[0]"] = env[f"len({st_.value.id})"]
             run_stmts(pre_rs, env)
             for sz in range(0, N + 1):
                 e2 = dict(env)
@@ -289,6 +311,13 @@ def run(prog: Program, L: Ledger) -> None:
         L.check(isinstance(g, ast.Call) and norm(g.func) in ("nx.from_numpy_array", "networkx.from_numpy_array", "nx.Graph", "nx.from_numpy_matrix") and bool(cname), "R2", "search_molecules:graph", f"{rel2}:{loop.lineno}", "graph is not built from the connectivity matrix", "", norm(g)[:80] if g is not None else "")
     else:
         cname = ""
+    # `connectivity = _helper_local` (the matrix built by an inlined helper): the stores are on the local it was bound from
+    for _hop in range(4):
+        b_ = [n for n in walk_no_nested(sm.node) if isinstance(n, ast.Assign) and len(n.targets) == 1 and isinstance(n.targets[0], ast.Name) and n.targets[0].id == cname]
+        if cname and len(b_) == 1 and isinstance(b_[0].value, ast.Name):
+            cname = b_[0].value.id
+        else:
+            break
     nl = [c for c in calls_in(sm.node) if norm(c.func) in ("neighbor_list", "ase.neighborlist.neighbor_list", "neighborlist.neighbor_list")]
     oknl = len(nl) == 1 and norm(nl[0].args[0]) == "'ij'" and any(k.arg == "self_interaction" and norm(k.value) == "False" for k in nl[0].keywords) and any(k.arg == "cutoff" and norm(k.value) == "cutoff" for k in nl[0].keywords)
     L.check(oknl, "R2", "search_molecules:neighbour-list", f"{rel2}:{nl[0].lineno if nl else sm0.node.lineno}", "neighbour list is not neighbor_list('ij', atoms, cutoff=cutoff, self_interaction=False)", "self-bonds / wrong cutoff change the components", norm(nl[0])[:100] if nl else "")
